@@ -196,8 +196,8 @@ func absorb(peers []*scriptPeer, o string) {
 // (choke / disconnect) peers, interleaved with gated writes and stop/start commands.
 func genLoopDL(r *Rng, idx int, tier string, step func(op string) string) {
 	l := genLayout(r)
-	o := step(fmt.Sprintf("new pl=%d files=%s seq=%s cfg.AllowedFastSet=%d cfg.EndgameMaxDuplicateDownloads=%d",
-		l.pl, l.filesArg(), b01(r.Chance(30)), r.Pick(0, 0, 2), r.Pick(1, 2, 20)))
+	o := step(fmt.Sprintf("new pl=%d files=%s seq=%s cfg.AllowedFastSet=%d cfg.EndgameMaxDuplicateDownloads=%d cfg.MaxPeerAccept=%d",
+		l.pl, l.filesArg(), b01(r.Chance(30)), r.Pick(0, 0, 2), r.Pick(1, 2, 20), r.Pick(2, 3, 20, 20)))
 	if !strings.HasPrefix(o, "ok") {
 		return
 	}
@@ -211,6 +211,11 @@ func genLoopDL(r *Rng, idx int, tier string, step func(op string) string) {
 		extra := ""
 		if r.Chance(8) {
 			extra = " ih=bad"
+		}
+		if r.Chance(15) && k > 1 {
+			// same IP address as an earlier peer (still connected, closed, or banned for corrupt data)
+			j := r.Range(1, k-1)
+			extra += fmt.Sprintf(" ip=10.0.%d.%d", j/250, j%250+1)
 		}
 		o := step(fmt.Sprintf("peer k=%d fast=%s ext=%s%s", k, b01(r.Chance(60)), b01(r.Chance(50)), extra))
 		if !strings.HasPrefix(o, "accepted") {
